@@ -111,7 +111,7 @@ func HPasteText() {
 		vObserve("rejected", ma)
 		return
 	}
-	vSameDigest(vDigest(cA), vDigest(cB), "c10t-paste-changes-catalog")
+	vSameDigest(vDigestDeep(cA), vDigestDeep(cB), "c10t-paste-changes-catalog")
 	if vParam("closure", 0) == 1 {
 		vCheckClosure(cB)
 	}
